@@ -25,6 +25,12 @@ func init() {
 		}
 		return samText(12, recs)
 	}
+	// the properties with schedule layers of their own get the race pass too
+	for id, f := range map[string]func() []Scenario{"C01": c01SchedScenarios, "C02": c02SchedScenarios, "C09": func() []Scenario { return c09Scenarios("quick") }} {
+		if p := props[id]; p != nil {
+			addRacePass(p, f)
+		}
+	}
 	add := func(id, prefix string, scens func() []Scenario) {
 		if p := props[id]; p != nil {
 			addSchedLayer(p, prefix, scens)
@@ -40,7 +46,11 @@ func init() {
 	})
 	add("C04", "variants", func() []Scenario {
 		return append(schedPair("variants-gb", func(n int) Call { return Call{Cmd: "variants", Msa: msa(n), RefID: "ref", Anno: gb, AnnoSuffix: "gb", AppendSNP: true} }),
-			schedPair("variants-gff", func(n int) Call { return Call{Cmd: "variants", Msa: msa(n), RefID: "ref", Anno: gff, AnnoSuffix: "gff"} })...)
+			append(schedPair("variants-gff", func(n int) Call { return Call{Cmd: "variants", Msa: msa(n), RefID: "ref", Anno: gff, AnnoSuffix: "gff"} }),
+				// the reference record last in the alignment (the writer skips it after everything else)
+				schedPair("variants-gb-reflast", func(n int) Call {
+					return Call{Cmd: "variants", Msa: fastaOf(append(mutated(g12, n), "ref", g12)...), RefID: "ref", Anno: gb, AnnoSuffix: "gb"}
+				})...)...)
 	})
 	add("C05", "indel", func() []Scenario {
 		return append(schedPair("samvariants-indels", func(n int) Call { return Call{Cmd: "samvariants", Sam: samOf(n), Ref: fastaOf("ref", g12), Anno: gb, AnnoSuffix: "gb"} }),
